@@ -316,13 +316,17 @@ func addFileCase(r *Run, gf *genFileT, file []byte, cbFail int, res fileRes, des
 		}
 	}
 	table, codec := decompTable(file)
-	if codec == "snappy" {
+	if codec == "snappy" && len(file) <= snappyModelLimit {
 		// the model does the framing, the length guard and the CRC-32 itself (Model/Compress.v):
-		// it is given only what golang/snappy says about each block's body
+		// it is given only what golang/snappy says about each block's body.  (Files above 24 KiB
+		// keep the decompressor as a table: the bit-by-bit CRC-32 of the model costs about a
+		// millisecond per hundred bytes inside coqc.)
 		return r.Add(cApp("KFileSn", schemaTerm, gf.g.Coq(), cBytes(file), snappyRawTable(file), cZ(int64(cbFail)), cZ(int64(res.N)), res.coqClass()), desc, key)
 	}
 	return r.Add(cApp("KFile", schemaTerm, gf.g.Coq(), cBytes(file), table, cZ(int64(cbFail)), cZ(int64(res.N)), res.coqClass()), desc, key)
 }
+
+const snappyModelLimit = 24 << 10
 
 // snappyRawTable: for every stored block the strict framing finds in a snappy file, the body
 // (the block without its four checksum bytes) with snappy.DecodedLen and snappy.Decode of it.
